@@ -133,8 +133,15 @@ type vFeed struct {
 	lastBlockLen        int
 }
 
+func viperResetForFeed() { viper.Reset() }
+
 func vNewAnySource(nchan int, period time.Duration) *AnySource {
 	ds := new(AnySource)
+	vInitAnySource(ds, nchan, period)
+	return ds
+}
+
+func vInitAnySource(ds *AnySource, nchan int, period time.Duration) {
 	ds.name = "VerifSource"
 	ds.nchan = nchan
 	ds.samplePeriod = period
@@ -143,7 +150,6 @@ func vNewAnySource(nchan int, period time.Duration) *AnySource {
 	for i := range ds.rowColCodes {
 		ds.rowColCodes[i] = rcCode(0, i, 1, nchan)
 	}
-	return ds
 }
 
 // vNewFeed prepares an AnySource through the real PrepareChannels/PrepareRun.
